@@ -34,6 +34,12 @@ func runC05(tier string, _ []string) int {
 			c.Inconclusive(err.Error())
 			return
 		}
+		own := map[string]bool{} // what the fresh instance holds by itself (root, default admin user)
+		if w0, err := vlib.Walk(nc); err == nil {
+			for k := range w0 {
+				own[k] = true
+			}
+		}
 		d := newGdriver(r, nc, in.RootID, fmt.Sprintf("r%d", i))
 		if err := buildShape(d, c06Shapes[r.Intn(len(c06Shapes))]); err != nil {
 			c.Violate("store:legal-write-refused", err.Error(), map[string]any{"case": i, "ops": d.Log})
@@ -60,8 +66,9 @@ func runC05(tier string, _ []string) int {
 			return []float64{math.NaN(), -math.NaN(), math.Float64frombits(0x7ff0000000000001), math.Float64frombits(0xfff8000000000123), math.Float64frombits(0x7ff4000000000000)}[r.Intn(5)]
 		}
 		classes := []string{"root-tombstone", "self-edge", "cycle", "cycle-deleted", "no-nodetype", "nan-node", "nan-edge", "nan-new-edge", "api-move-cycle", "api-mirror-cycle",
-			"nan-stale", "nan-shadowed", "nan-nodetype", "cycle-detached",
+			"nan-stale", "nan-shadowed", "nan-nodetype", "cycle-detached", "cycle-after-reparent",
 			"legal-mirror", "legal-root-tombstone0", "legal-inf", "open-garbage-node", "open-garbage-edge", "open-root-tombstone2"}
+		modelUnsure := false
 		for k := 0; k < perGraph; k++ {
 			class := classes[(k+i)%len(classes)]
 			var subject string
@@ -245,6 +252,41 @@ func runC05(tier string, _ []string) int {
 			case "nan-nodetype":
 				node, parent, edgeWrite, mustRefuse = d.newID(), d.pickNode(), true, true
 				pts = data.Points{{Type: data.PointTypeTombstone, Time: d.now(), Value: 0}, {Type: data.PointTypeNodeType, Text: "variable", Value: nan()}}
+			case "cycle-after-reparent":
+				// the ancestors of a node change after it got children (an ancestor is mirrored below another
+				// branch); then that other branch is aimed below the node: a cycle through the new edge
+				found := false
+				var low, mid, other string
+				for try := 0; try < 60 && !found; try++ {
+					low = d.pickNode()
+					if len(d.g.Children(low, true)) == 0 && r.Chance(0.7) {
+						continue // prefer nodes that had children created below them
+					}
+					ancs := keysOf(d.g.Ancestors(low, true))
+					if len(ancs) == 0 {
+						continue
+					}
+					mid = ancs[r.Intn(len(ancs))]
+					other = d.pickNode()
+					if mid == "root" || mid == in.RootID || other == in.RootID || other == low || other == mid {
+						continue
+					}
+					if d.g.Ancestors(other, true)[mid] || d.g.Ancestors(mid, true)[other] || d.g.Ancestors(low, true)[other] || d.g.Ancestors(other, true)[low] || d.g.HasEdge(other, mid) {
+						continue // other must be unrelated to the branch so far
+					}
+					found = true
+				}
+				if !found {
+					continue
+				}
+				mpts := data.Points{{Type: data.PointTypeTombstone, Time: d.now(), Value: 0}, {Type: data.PointTypeNodeType, Text: d.g.Types[mid]}}
+				if e, err := d.sendEdge(mid, other, mpts); err != nil || e != "" {
+					c.Violate("store:legal-write-refused", fmt.Sprintf("legal mirror of %s below %s refused: %v %s", mid, other, err, e), map[string]any{"case": i, "ops": d.Log, "edges": d.g.EdgeKeys()})
+					return
+				}
+				// other -> mid -> ... -> low exists now; low -> other would close it
+				node, parent, edgeWrite, mustRefuse = other, low, true, true
+				pts = data.Points{{Type: data.PointTypeTombstone, Time: d.now(), Value: 0}, {Type: data.PointTypeNodeType, Text: d.g.Types[other]}}
 			case "cycle-detached":
 				// a child edge is accepted below a parent that is not attached anywhere yet (import / sync
 				// order); that parent's first edge is then aimed below its own descendant
@@ -377,6 +419,31 @@ func runC05(tier string, _ []string) int {
 			if err != nil || e != "" {
 				c.Violate("refused-write:later-request-not-answered", fmt.Sprintf("follow-up write after %s: %v %s", class, err, e), wit)
 				return
+			}
+			if raw != nil && reply == "" {
+				modelUnsure = true // undecodable-looking bytes were accepted: the model cannot know what was stored
+			}
+			if reply != "" && !modelUnsure {
+				// nothing of the refused request may surface later either: the tree after the next accepted
+				// write is the model (accepted writes only), with consistent hashes
+				w3, err := vlib.Walk(nc)
+				if err != nil {
+					c.Violate("refused-write:instance-unreadable-after:"+class, "tree cannot be read after the follow-up write: "+err.Error(), wit)
+					return
+				}
+				if diff := vlib.ContentDiff(w3, d.g, own); diff != "" {
+					wit["tree"] = vlib.DumpString(w3)
+					c.Violate("refused-write:left-a-trace-in-store:"+class+":seen-after-the-next-write", "after the write that followed a refused "+class+" request: "+diff, wit)
+					return
+				}
+				ref := vlib.RefHashes(w3)
+				for key, pl := range w3 {
+					if ref[key] != pl.Hash {
+						c.Violate("refused-write:left-a-trace-in-store:"+class+":seen-after-the-next-write", fmt.Sprintf("after the write that followed a refused %s request: placement %s stored hash %08x, Merkle hash of its content %08x", class, key, pl.Hash, ref[key]), wit)
+						return
+					}
+				}
+				c.Count("content_checked_after_follow_up_write", 1)
 			}
 			nb := len(before) / 4 * 4
 			c.Distinct(fmt.Sprintf("%s placements~%d %s", class, nb, outcome))
